@@ -178,7 +178,8 @@ class ArrayLookup(Assignable):
     @property
     def const(self):
         if self.source.type == DataType.STRING:
-            return False
+            # strings are immutable: their elements cannot be assigned
+            return True
         return self.source.type.const
 
     def evaluate(self, env):
